@@ -69,14 +69,19 @@ pub struct RecWriter {
     pub out: Vec<u8>,
     pub fail_at: Option<usize>,
     pub max_per_call: usize,
+    /// every k-th call of poll_write answers Pending first (0: never)
+    pub pending_every: usize,
+    calls: usize,
 }
 impl RecWriter {
     pub fn new() -> Self {
-        Self { out: Vec::new(), fail_at: None, max_per_call: usize::MAX }
+        Self { out: Vec::new(), fail_at: None, max_per_call: usize::MAX, pending_every: 0, calls: 0 }
     }
 }
 impl futures_io::AsyncWrite for RecWriter {
     fn poll_write(mut self: Pin<&mut Self>, _cx: &mut Context<'_>, buf: &[u8]) -> Poll<std::io::Result<usize>> {
+        self.calls += 1;
+        if self.pending_every > 0 && self.calls % self.pending_every == 0 { return Poll::Pending; }   // (block_on polls again)
         let mut n = buf.len().min(self.max_per_call);
         if let Some(f) = self.fail_at {
             if self.out.len() >= f {
